@@ -144,6 +144,27 @@ Qed.
 Definition holds_excl (g : ghost) (r : repr) : Prop :=
   match r with Heap b _ => (0 < g_refs g b)%nat /\ g_free g b = false /\ g_excl g b = true | Static _ _ => False | Inline _ => True end.
 
+(* reference accounting: an operation changes the thread's count of a buffer exactly by the change of its handle *)
+Definition nm (r : repr) (b : bufid) : nat := match r with Heap b' _ => if Nat.eqb b' b then 1%nat else 0%nat | _ => 0%nat end.
+Definition cons (g : ghost) (r : repr) (g' : ghost) (r' : repr) : Prop :=
+  forall b, (g_refs g' b + nm r b = g_refs g b + nm r' b)%nat.
+Lemma cons_same g r g' : (forall b, g_refs g' b = g_refs g b) -> cons g r g' r.
+Proof. intros H b. rewrite H. reflexivity. Qed.
+(* what replace_inner's postcondition says about the counts: r's reference is gone, nothing else moved *)
+Lemma released_refs r g g' :
+  holds g r ->
+  match r with
+  | Heap b _ => g_refs g' b = (g_refs g b - 1)%nat /\ forall b', b' <> b -> same_at g g' b'
+  | _ => g' = g
+  end -> forall x, (g_refs g' x + nm r x = g_refs g x)%nat.
+Proof.
+  destruct r as [d|b l|s l]; cbn [holds nm]; intros Hh Hm x; try (subst g'; lia).
+  destruct Hh as (Hr & _). destruct Hm as (E & Same). destruct (Nat.eqb_spec b x) as [->|Hne]; [lia|].
+  destruct (Same x (not_eq_sym Hne)) as (E1 & _). lia.
+Qed.
+Ltac cons_tac := let x := fresh "x" in intros x; cbn [nm g_refs]; unfold setf;
+  repeat match goal with |- context [Nat.eqb ?a ?b] => destruct (Nat.eqb_spec a b); subst end; try lia; try congruence.
+
 Lemma ok_allocate_ptr c g (Q : option bufid -> ghost -> Prop) :
   Q None g ->
   (forall b, g_refs g b = 0%nat -> g_excl g b = false -> g_free g b = false ->
@@ -199,18 +220,20 @@ Definition unique_post (ok : bool) (r' : repr) (g' : ghost) : Prop :=
 
 Lemma ok_reserve r add g :
   holds g r -> settled g ->
-  okc (reserve r add) g (fun p g' => settled g' /\ holds g' (fst p) /\ (snd p = true -> holds_excl g' (fst p))).
+  okc (reserve r add) g (fun p g' => settled g' /\ holds g' (fst p) /\ (snd p = true -> holds_excl g' (fst p))
+                                     /\ cons g r g' (fst p)).
 Proof.
   intros Hh Hs. unfold reserve. destruct (checked_add (repr_len r) add) as [needed|].
-  2:{ cbn [okc fst snd]. split; [exact Hs|]. split; [exact Hh|discriminate]. }
+  2:{ cbn [okc fst snd]. split; [exact Hs|]. split; [exact Hh|]. split; [discriminate|apply cons_same; reflexivity]. }
   destruct r as [bs|b l|s l].
   - (* inline *)
     destruct (cond_reserve_inline_grow needed).
     + apply okc_bind. apply ok_heap_with_additional.
-      * cbn [okc fst snd]. split; [exact Hs|]. split; [exact I|discriminate].
+      * cbn [okc fst snd]. split; [exact Hs|]. split; [exact I|]. split; [discriminate|apply cons_same; reflexivity].
       * intros b' l' H1 H2 H3. cbn [okc fst snd holds holds_excl]. gs.
-        split; [exact Hs|]. split; [split; [lia|exact H3]|]. intros _. split; [lia|]. split; [exact H3|reflexivity].
-    + cbn [okc fst snd holds holds_excl]. auto.
+        split; [exact Hs|]. split; [split; [lia|exact H3]|]. split; [intros _; split; [lia|]; split; [exact H3|reflexivity]|].
+        cons_tac.
+    + cbn [okc fst snd holds holds_excl]. split; [exact Hs|]. split; [exact I|]. split; [auto|apply cons_same; reflexivity].
   - (* heap *)
     destruct Hh as (H1 & H2). cbn [repr_len].
     apply okc_bind. unfold heap_is_unique. apply okc_bind. cbn [load okc]. split; [exact H1|]. split; [reflexivity (* acquire: ord_is_unique_0 *)|]. intros v. cbn [okc].
@@ -220,65 +243,82 @@ Proof.
       assert (He1 : g_excl g1 b = true) by (unfold g1; gs; apply orb_true_r).
       apply okc_bind. cbn [hdr_cap okc]. split; [left; exact H1|]. intros c. cbn [okc].
       destruct (cond_reserve_enough c needed).
-      * cbn [okc fst snd holds holds_excl]. split; [exact Hs|]. split; [split; [exact H1|exact H2]|]. intros _. auto.
+      * cbn [okc fst snd holds holds_excl]. split; [exact Hs|]. split; [split; [exact H1|exact H2]|].
+        split; [intros _; auto|apply cons_same; reflexivity].
       * apply okc_bind. apply ok_heap_realloc; [exact He1|]. intros ok. cbn [okc fst snd holds holds_excl].
-        split; [exact Hs|]. split; [split; [exact H1|exact H2]|]. intros _. auto.
+        split; [exact Hs|]. split; [split; [exact H1|exact H2]|]. split; [intros _; auto|apply cons_same; reflexivity].
     + (* shared: read while still holding the reference, copy, then release *)
       set (g1 := {| g_refs := g_refs g; g_excl := setf (g_excl g) b (g_excl g b || false); g_free := g_free g; g_fen := g_fen g |}).
       apply okc_bind. cbn [read okc]. split; [left; exact H1|]. intros t. cbn [okc].
       apply okc_bind. apply ok_heap_with_additional.
-      * cbn [okc fst snd holds]. split; [exact Hs|]. split; [split; [exact H1|exact H2]|discriminate].
+      * cbn [okc fst snd holds]. split; [exact Hs|]. split; [split; [exact H1|exact H2]|].
+        split; [discriminate|apply cons_same; reflexivity].
       * intros b' l' N1 N2 N3.
         set (g2 := {| g_refs := setf (g_refs g1) b' 1%nat; g_excl := setf (g_excl g1) b' true; g_free := g_free g1; g_fen := g_fen g1 |}).
         assert (Hbb : b' <> b) by (intros ->; cbn [g1 g_refs] in N1; lia).
+        assert (Hh2 : holds g2 (Heap b l)).
+        { cbn [holds]. unfold g2, g1. gs. apply Nat.eqb_neq in Hbb. rewrite Nat.eqb_sym, Hbb. auto. }
         apply okc_bind. eapply okc_mono.
-        -- apply (ok_replace_inner (Heap b l) (Heap b' l') g2).
-           ++ cbn [holds]. unfold g2, g1. gs. apply Nat.eqb_neq in Hbb. rewrite Nat.eqb_sym, Hbb. auto.
-           ++ exact Hs.
-        -- intros r' g' (-> & S' & _ & Same). cbn [okc fst snd holds holds_excl].
+        -- apply (ok_replace_inner (Heap b l) (Heap b' l') g2); [exact Hh2|exact Hs].
+        -- intros r' g' (-> & S' & Hm). pose proof (released_refs _ _ _ Hh2 Hm) as Hrel. destruct Hm as (_ & Same).
+           cbn [okc fst snd holds holds_excl].
            destruct (Same b' Hbb) as (E1 & E2 & E3). unfold g2, g1 in E1, E2, E3. revert E1 E2 E3. gs. intros E1 E2 E3.
-           split; [exact S'|]. split; [split; [lia|apply S']|]. intros _. split; [lia|]. split; [apply S'|exact E2].
+           split; [exact S'|]. split; [split; [lia|apply S']|]. split; [intros _; split; [lia|]; split; [apply S'|exact E2]|].
+           intros x. specialize (Hrel x). unfold g2, g1 in Hrel. cbn [g_refs nm] in Hrel |- *. unfold setf in Hrel.
+           cbn [g1 g_refs] in N1.
+           repeat match goal with |- context [Nat.eqb ?a ?c] => destruct (Nat.eqb_spec a c); subst end;
+           repeat match goal with H : context [Nat.eqb ?a ?c] |- _ => destruct (Nat.eqb_spec a c); subst end; try lia; try congruence.
   - (* static *)
     apply okc_bind. cbn [read okc]. intros t. cbn [okc]. destruct (cond_reserve_static_inline needed).
-    + cbn [okc fst snd holds holds_excl]. auto.
+    + cbn [okc fst snd holds holds_excl]. split; [exact Hs|]. split; [exact I|]. split; [auto|intros x; cbn [nm]; lia].
     + apply okc_bind. apply ok_heap_with_additional.
-      * cbn [okc fst snd holds]. split; [exact Hs|]. split; [exact I|discriminate].
+      * cbn [okc fst snd holds]. split; [exact Hs|]. split; [exact I|]. split; [discriminate|apply cons_same; reflexivity].
       * intros b' l' H1 H2 H3. cbn [okc fst snd holds holds_excl]. gs.
-        split; [exact Hs|]. split; [split; [lia|exact H3]|]. intros _. split; [lia|]. split; [exact H3|reflexivity].
+        split; [exact Hs|]. split; [split; [lia|exact H3]|]. split; [intros _; split; [lia|]; split; [exact H3|reflexivity]|].
+        cons_tac.
 Qed.
 
 (* ensure_modifiable: same discipline *)
 Lemma ok_ensure_modifiable r g :
   holds g r -> settled g ->
-  okc (ensure_modifiable r) g (fun p g' => settled g' /\ holds g' (fst p) /\ (snd p = true -> holds_excl g' (fst p))).
+  okc (ensure_modifiable r) g (fun p g' => settled g' /\ holds g' (fst p) /\ (snd p = true -> holds_excl g' (fst p))
+                                          /\ cons g r g' (fst p)).
 Proof.
   intros Hh Hs. unfold ensure_modifiable. destruct r as [bs|b l|s l].
-  - cbn [okc fst snd holds holds_excl]. auto.
+  - cbn [okc fst snd holds holds_excl]. split; [exact Hs|]. split; [exact I|]. split; [auto|apply cons_same; reflexivity].
   - destruct Hh as (H1 & H2).
     apply okc_bind. unfold heap_is_unique. apply okc_bind. cbn [load okc]. split; [exact H1|]. split; [reflexivity (* acquire: ord_is_unique_0 *)|]. intros v. cbn [okc].
     destruct (N.eqb_spec v 1) as [->|Hne].
-    + cbn [okc fst snd holds holds_excl]. gs. split; [exact Hs|]. split; [split; [exact H1|exact H2]|]. intros _.
-      split; [exact H1|]. split; [exact H2|apply orb_true_r].
+    + cbn [okc fst snd holds holds_excl]. gs. split; [exact Hs|]. split; [split; [exact H1|exact H2]|].
+      split; [intros _; split; [exact H1|]; split; [exact H2|apply orb_true_r]|apply cons_same; reflexivity].
     + set (g1 := {| g_refs := g_refs g; g_excl := setf (g_excl g) b (g_excl g b || false); g_free := g_free g; g_fen := g_fen g |}).
       apply okc_bind. cbn [read okc]. split; [left; exact H1|]. intros t. cbn [okc].
       apply okc_bind. apply ok_heap_new.
-      * cbn [okc fst snd holds]. split; [exact Hs|]. split; [split; [exact H1|exact H2]|discriminate].
+      * cbn [okc fst snd holds]. split; [exact Hs|]. split; [split; [exact H1|exact H2]|].
+        split; [discriminate|apply cons_same; reflexivity].
       * intros b' l' N1 N2 N3.
         set (g2 := {| g_refs := setf (g_refs g1) b' 1%nat; g_excl := setf (g_excl g1) b' true; g_free := g_free g1; g_fen := g_fen g1 |}).
         assert (Hbb : b' <> b) by (intros ->; cbn [g1 g_refs] in N1; lia).
+        assert (Hh2 : holds g2 (Heap b l)).
+        { cbn [holds]. unfold g2, g1. gs. apply Nat.eqb_neq in Hbb. rewrite Nat.eqb_sym, Hbb. auto. }
         apply okc_bind. eapply okc_mono.
-        -- apply (ok_replace_inner (Heap b l) (Heap b' l') g2).
-           ++ cbn [holds]. unfold g2, g1. gs. apply Nat.eqb_neq in Hbb. rewrite Nat.eqb_sym, Hbb. auto.
-           ++ exact Hs.
-        -- intros r' g' (-> & S' & _ & Same). cbn [okc fst snd holds holds_excl].
+        -- apply (ok_replace_inner (Heap b l) (Heap b' l') g2); [exact Hh2|exact Hs].
+        -- intros r' g' (-> & S' & Hm). pose proof (released_refs _ _ _ Hh2 Hm) as Hrel. destruct Hm as (_ & Same).
+           cbn [okc fst snd holds holds_excl].
            destruct (Same b' Hbb) as (E1 & E2 & E3). unfold g2, g1 in E1, E2, E3. revert E1 E2 E3. gs. intros E1 E2 E3.
-           split; [exact S'|]. split; [split; [lia|apply S']|]. intros _. split; [lia|]. split; [apply S'|exact E2].
+           split; [exact S'|]. split; [split; [lia|apply S']|]. split; [intros _; split; [lia|]; split; [apply S'|exact E2]|].
+           intros x. specialize (Hrel x). unfold g2, g1 in Hrel. cbn [g_refs nm] in Hrel |- *. unfold setf in Hrel.
+           cbn [g1 g_refs] in N1.
+           repeat match goal with |- context [Nat.eqb ?a ?c] => destruct (Nat.eqb_spec a c); subst end;
+           repeat match goal with H : context [Nat.eqb ?a ?c] |- _ => destruct (Nat.eqb_spec a c); subst end; try lia; try congruence.
   - apply okc_bind. cbn [read okc]. intros t. cbn [okc]. apply okc_bind. unfold from_str.
     destruct (cond_from_str_inline (len t)).
-    + cbn [okc]. apply okc_bind. cbn [replace_inner okc fst snd holds holds_excl]. auto.
+    + cbn [okc]. apply okc_bind. cbn [replace_inner okc fst snd holds holds_excl].
+      split; [exact Hs|]. split; [exact I|]. split; [auto|intros x; cbn [nm]; lia].
     + apply ok_heap_new.
-      * cbn [okc fst snd holds]. split; [exact Hs|]. split; [exact I|discriminate].
+      * cbn [okc fst snd holds]. split; [exact Hs|]. split; [exact I|]. split; [discriminate|apply cons_same; reflexivity].
       * intros b' l' H1 H2 H3. apply okc_bind. cbn [replace_inner okc fst snd holds holds_excl]. gs.
-        split; [exact Hs|]. split; [split; [lia|exact H3]|]. intros _. split; [lia|]. split; [exact H3|reflexivity].
+        split; [exact Hs|]. split; [split; [lia|exact H3]|]. split; [intros _; split; [lia|]; split; [exact H3|reflexivity]|].
+        cons_tac.
 Qed.
 
